@@ -198,17 +198,22 @@ theorem C09_symlink_refused (env : Env) (fd : Fd) (flags : Nat) (hfd : 0 ≤ fd)
       simp [List.length_append] at this
       exact absurd this (by omega)
 
-/-- **No fall-back on an unrelated failure (finding F22, repaired).**  For every environment: when
-`open_follow` (the heart of `reopen`) succeeds, its readlink probe either succeeded — the target is
-a link and the final open follows it inside the verified parent directory — or failed with exactly
-`EINVAL`/`ENOENT` ("not a symlink" / "no such file").  A probe that fails for any other reason
+/-- **No fall-back on an unrelated failure (findings F22 and F25, repaired).**  For every environment: when
+`open_follow` (the heart of `reopen`) succeeds, its readlink probe either succeeded or failed with
+`ENAMETOOLONG` (a link whose target the kernel cannot print: the file was moved below a path longer than
+`PATH_MAX`) — then the target is a link and the result is that of the *following* half: the final open follows
+it inside the verified parent directory — or it failed with exactly `EINVAL`/`ENOENT` ("not a symlink" /
+"no such file") and the result is that of the no-follow open.  A probe that fails for any other reason
 (`EMFILE`, `ENOMEM`, `EINTR`, `EIO`, …) is the result of the call: it can no longer turn into an
 `O_NOFOLLOW` open that returns the magic-link itself instead of the handle's inode. -/
 theorem C09_no_fallback_on_unrelated_failure (env : Env) (hd : ProcH) (base : Procfs.Base) (sub : Bytes) (fl : Nat)
     {h h' : Hist} {fd : Fd}
     (hr : Runs (Procfs.openFollowH env hd base sub fl) h h' (.ok fd)) :
-    ∃ hm x, Runs (Procfs.readlinkH env hd base (Path.stripTrailingSlash sub).1) h hm x ∧
-      ((∃ b, x = .ok b) ∨ x = .error (.os EINVAL) ∨ x = .error (.os ENOENT)) := by
+    ∃ hm x fl', Runs (Procfs.readlinkH env hd base (Path.stripTrailingSlash sub).1) h hm x ∧
+      ((((∃ b, x = .ok b) ∨ x = .error (.os ENAMETOOLONG)) ∧
+          Runs (Procfs.openFollowTail env hd base (Path.stripTrailingSlash sub).1 fl') hm h' (.ok fd)) ∨
+       ((x = .error (.os EINVAL) ∨ x = .error (.os ENOENT)) ∧
+          Runs (Procfs.openH env Procfs.retryFuel hd base (Path.stripTrailingSlash sub).1 fl') hm h' (.ok fd))) := by
   unfold Procfs.openFollowH at hr
   dsimp only at hr
   generalize (if (Path.stripTrailingSlash sub).2 = true then fl ||| O_DIRECTORY else fl) = fl' at hr
@@ -217,19 +222,24 @@ theorem C09_no_fallback_on_unrelated_failure (env : Env) (hd : ProcH) (base : Pr
   · simp only [M.bind_def] at hr
     obtain ⟨hm, probe, h1, h2⟩ := Runs.mbind_ok hr
     obtain ⟨x, hx, hcase⟩ := Runs.try_inv h1
-    refine ⟨hm, x, hx, ?_⟩
-    rcases hcase with ⟨b, hxb, _⟩ | ⟨e, hxe, hfe⟩
-    · exact Or.inl ⟨b, hxb⟩
+    refine ⟨hm, x, fl', hx, ?_⟩
+    rcases hcase with ⟨b, hxb, hp⟩ | ⟨e, hxe, hfe⟩
+    · cases hp
+      exact Or.inl ⟨Or.inl ⟨b, hxb⟩, h2⟩
     · rcases hfe with ⟨_, hp⟩ | ⟨_, hp⟩
       · cases hp
       · cases hp
         dsimp only at h2
         split at h2
         · rename_i hor
+          refine Or.inr ⟨?_, h2⟩
           rcases hor with he | he
-          · right; left; rw [hxe, he]
-          · right; right; rw [hxe, he]
-        · obtain ⟨_, he⟩ := Runs.ret_inv h2; cases he
+          · left; rw [hxe, he]
+          · right; rw [hxe, he]
+        · split at h2
+          · rename_i he
+            exact Or.inl ⟨Or.inr (by rw [hxe, he]), h2⟩
+          · obtain ⟨_, he⟩ := Runs.ret_inv h2; cases he
 
 /-! ## Non-vacuity -/
 
